@@ -111,6 +111,39 @@ CHECKS = {
         'level_note': 'trusted base: the harness oracle and counters, x86-64 TSO, sanitizer runtimes; WeakRingBuffer<void> capacity must be a multiple of 8 and records never wrap (a failed push on an empty ring is only a violation when 2x rounded size fits); '
                       'record sizes above capacity-16 and batches == capacity are only driven in NDEBUG builds (library asserts)',
     },
+    'C13': {
+        'technique': 'runtime monitoring: recorded concurrent histories split per key (P-compositionality) and checked by a WGL linearizability checker against the absent|present(id) register model; state pinned by sequential lookups at every barrier; ASan/UBSan; destroyed-item poison check',
+        'level_text': 'Round/segment histories (2-4 threads, 2-8 keys so operations collide, delays injected before every libcds atomic operation, tiny SMR thresholds) of MichaelList, LazyList, IterableList as sets over HP, DHP and '
+                      'RCU gpi/gpb/gpt/shb, less- and compare-based, item counter on/off, over the full alphabet: insert, insert(f), emplace, update (allow / no insert; replacing update and upsert for IterableList), erase, erase(f), erase_with, extract, '
+                      'contains, find(f), find_with, get (guarded_ptr / raw_ptr under the RCU lock, exempt_ptr released outside). Every observed item id must be the one the model holds; every item handed out is checked for the destructor poison mark',
+        'level_note': LIN_NOTE + '; value-copying container forms (built on the intrusive lists); the insert-only nogc lists and the intrusive-only unlink() are not driven',
+    },
+    'C14': {
+        'technique': 'runtime monitoring: per-key WGL linearizability checking of recorded concurrent histories on hash sets with colliding / shared-prefix hashes while tables grow; ASan/UBSan; destroyed-item poison check',
+        'level_text': 'Same oracle as C13 on MichaelHashSet over Michael/Lazy/Iterable lists (1,2,4 buckets, identity / mod-2 / constant hashes), SplitListSet over each list kind (expandable tables growing from 2 to 32-64 buckets during the run and static tables, '
+                      'three bit-reversal algorithms, load factor 1-2) and FeldmanHashSet (1/2/4/8-byte hashes, head 2-4 bits, array 2-4 bits, keys in the lowest or highest chunk so slots expand to the deepest level) over HP, DHP and RCU; '
+                      'containers are re-created every 25-400 rounds so that bucket initialisation (incl. recursive), table doubling and array-node expansion run while operations are in flight (counters reported)',
+        'level_note': LIN_NOTE + '; set forms only (maps share the implementation); nogc variants not driven',
+    },
+    'C15': {
+        'technique': 'runtime monitoring: per-key WGL linearizability checking plus interval oracles for extract_min/extract_max on skip lists, Ellen trees and Bronson AVL trees; quiescent check_consistency(); ASan/UBSan; round watchdog for non-terminating calls',
+        'level_text': 'SkipListSet (HP/DHP/RCU; level generators forcing towers low, high, alternating, random; height 5-8), EllenBinTreeSet (HP/DHP/RCU), BronsonAVLTreeMap (RCU gpb/gpi/gpt; value and pointer forms; injecting_monitor<spin> and pool_monitor; relaxed_insert): '
+                      'per-key WGL over the full alphabet; extract_min/max recorded as a removal of the returned key, and a violation if it returns key k or empty while a smaller/larger key is surely present throughout the call (two low keys kept present to arm the rule). '
+                      'Found and fixed: F5, F9, F9b, F10, F15; known findings F12 (extract_min/max can spin forever on Bronson), F14 (relaxed_insert frees caller-owned values) - both isolated in separate processes',
+        'level_note': LIN_NOTE + '; skip-list generators below height 5 are unusable (c_nMinHeight); Bronson is a map, driven as int -> item',
+    },
+    'C16': {
+        'technique': 'runtime monitoring: per-key WGL linearizability checking of recorded concurrent histories on lock-based hash sets with tiny capacities so that resizes interleave with operations; ASan/UBSan; TSan payload monitor (locks are visible to TSan)',
+        'level_text': 'CuckooSet (striping/refinable over std::recursive_mutex and reentrant spin; list and vector<2..4> probe sets; ordered/unordered; stored hashes; initial size 4-8, probe-set size 2-4) and StripedSet (striping/refinable; std list/vector/set/unordered_set and '
+                      'boost list/slist/vector/stable_vector/set/flat_set/unordered_set buckets; load-factor and single-bucket-threshold policies incl. runtime forms; capacity 16 minimum) over 3-40 keys: per-key WGL incl. functor forms; resize/relocation counters reported',
+        'level_note': LIN_NOTE + '; set forms only; single_bucket_size_threshold is combined with spreading hashes only (with colliding hashes the table doubles without bound: memory exhaustion, not a C16 event); intrusive bucket adapters not driven',
+    },
+    'C18': {
+        'technique': 'runtime monitoring: structural invariants checked at quiescent points (all workers parked at a barrier) after concurrent and sequential histories: exact traversal, size()/empty(), check_consistency()',
+        'level_text': 'At every barrier of the C13-C16 workloads (after a linearizable round): iterator traversal of lists, skip lists, Michael/SplitList/Feldman sets yields exactly the keys that lookups report present, each once, strictly increasing for ordered containers and '
+                      'with the same item as find(); size()/empty() equal the number of present keys where an item counter is configured; EllenBinTree and BronsonAVLTreeMap check_consistency() (search-tree order, AVL balance, witness of the imbalanced node)',
+        'level_note': 'trusted base as C13; split-order of SplitList traversal and the per-level ordering of skip-list towers are not inspected (would need protected members); trees without iterators are checked through check_consistency() and lookups only',
+    },
     'C21': {
         'technique': 'runtime monitoring: ownership ledger (owner word CAS on get, payload token of the last putter) and quiescent drain on real FreeList/TaggedFreeList/CachedFreeList under injected delays; ASan; TSan payload happens-before monitor',
         'level_text': 'Seeded runs of 2-4 threads over pools of 1-8 nodes (each thread holds 0-3 nodes, so the refcount-at-zero re-add and head-CAS-failure paths run constantly; contention is measured from library atomic-op counts): '
